@@ -61,6 +61,8 @@ Init == /\ x0 \in XU /\ x = x0
         /\ yd \in (IF shape = "distinct" THEN YU ELSE IF shape = "equal" THEN {x0} ELSE {EmptyY})
         /\ n = 0 /\ last = NoStep /\ out = NoOut /\ hist = <<>>
 
+InitSame == Init /\ shape = "same"          \* the mechanism variants differ on the aliased pair only
+
 Record(step) == IF Gen THEN Append(hist, step) ELSE hist
 Snapshot(h) == [x |-> x0, yd |-> IF shape = "equal" THEN x0 ELSE yd, shape |-> shape, steps |-> h]
 DoCall(p) == /\ n < MaxSteps /\ PlanOK(p, shape)
